@@ -63,8 +63,7 @@ def _glm_fit(X, y, model, datafit, penalty, solver):
                       " was passed when a 1d array was expected")
         y = y[:, 0]
 
-    if not hasattr(model, "n_features_in_"):
-        model.n_features_in_ = X.shape[1]
+    model.n_features_in_ = X.shape[1]
 
     n_samples = X.shape[0]
     if n_samples != y.shape[0]:
